@@ -315,6 +315,7 @@ def aggregator_rounds(case):
   state = agg.init()
   all_keys = []
   evals = 0
+  seam_cap = []
   import contextlib
   with contextlib.ExitStack() as es:
     for p in patches:
@@ -328,15 +329,17 @@ def aggregator_rounds(case):
       recorded.clear()
       keys.clear()
       out, new = agg.apply(iter([(b'c%d' % i, t, w) for i, (t, w) in enumerate(zip(trees, weights))]), state)
-      if len(recorded) != n or len(keys) != n:
-        raise HarnessError('C11: recording seam saw %d quantised trees / %d keys for %d clients' % (len(recorded), len(keys), n))
+      seam_ok = len(recorded) == n and len(keys) == n
+      if not seam_ok:
+        seam_cap.append('recording seam saw %d quantised trees / %d keys for %d clients' % (len(recorded), len(keys), n))
       tot = float(sum(weights))
       got = [np.asarray(l, np.float64) for l in jax.tree_util.tree_leaves(out)]
       for li, g in enumerate(got):
         require(bool(np.all(np.isfinite(g))), name + ': aggregate contains NaN/Inf', case=nc)
-        want = sum(np.asarray(jax.tree_util.tree_leaves(q)[li], np.float64) * w for q, w in zip(recorded, weights)) / tot
-        require(bool(np.all(np.abs(g - want) <= 1e-5 * (1 + np.abs(want)))), name + ': aggregate is not the weighted mean of the '
-                'per-client quantised trees', want.tolist(), g.tolist(), case=nc)
+        if seam_ok:
+          want = sum(np.asarray(jax.tree_util.tree_leaves(q)[li], np.float64) * w for q, w in zip(recorded, weights)) / tot
+          require(bool(np.all(np.abs(g - want) <= 1e-5 * (1 + np.abs(want)))), name + ': aggregate is not the weighted mean of '
+                  'the per-client quantised trees', want.tolist(), g.tolist(), case=nc)
         exact = sum(np.asarray(jax.tree_util.tree_leaves(t)[li], np.float64) * w for t, w in zip(trees, weights)) / tot
         if name in ('uniform', 'uniform_arith'):
           steps = [(np.asarray(jax.tree_util.tree_leaves(t)[li], np.float64).max() -
@@ -346,13 +349,20 @@ def aggregator_rounds(case):
       require(len(set(keys)) == len(keys), name + ': two clients were quantised with the same key', case=nc)
       all_keys += keys
       inc = float(new.num_bits) - float(state.num_bits)
+      if not seam_ok and name == 'uniform_arith':
+        state = new
+        evals += 1
+        continue
       want_bits = _bits_reference(name, levels, recorded, out)
       require(abs(inc - want_bits) <= 1e-3 * (1 + abs(want_bits)), name + ': reported bit count increased by %r, documented '
               'formula gives %r' % (inc, want_bits), want_bits, inc, case=nc)
       state = new
       evals += 1
   require(len(set(all_keys)) == len(all_keys), name + ': quantisation keys repeat across rounds', case=case)
-  return {'evals': evals, 'nontrivial': len(set(weights)) > 1 or 0 in weights, 'outcome': [name, kind, weights]}
+  info = {'evals': evals, 'nontrivial': len(set(weights)) > 1 or 0 in weights, 'outcome': [name, kind, weights]}
+  if seam_cap:
+    info['cap'] = seam_cap[0]
+  return info
 
 
 def drive(case):
